@@ -261,7 +261,20 @@ func (m *Machine) runPath(dec []int) {
 		if need && m.sol.depth == 1 {
 			func() {
 				defer func() { recover() }()
-				if r := m.sol.Check(""); r == "sat" {
+				ex := ""
+				for _, p := range m.prefers {
+					if ex == "" {
+						ex = p.S
+					} else {
+						ex = "(and " + ex + " " + p.S + ")"
+					}
+				}
+				r := m.sol.Check(ex)
+				if r != "sat" && ex != "" {
+					m.sol.Pop()
+					r = m.sol.Check("")
+				}
+				if r == "sat" {
 					model, _ := m.model()
 					sample = map[string]interface{}{"decisions": append([]int{}, m.dec[:m.pos]...), "inputs": model}
 					if len(m.logs) > 0 {
